@@ -302,6 +302,7 @@ package boltz
 //@   props C07
 //@   errflow
 //@   nosafety
+//@   waive immutable two-step construction: the integrity checker made this context just before with no error holder and gives it one here, before any constraint sees it
 //@   modifies *
 //@   censures[a-successful-repair-writes] result == nil ==> ciDirty
 
